@@ -314,14 +314,19 @@ def e2e_cases(pid, tier, rng):
             cases.append((case, lay, Bx, "plain"))
     # boundary family: the first message(s) end exactly on a block end, a multi-block line starts the next block
     for B in ([64, 100, 128] if tier == "quick" else [64, 65, 100, 128, 200, 256, 1000, 4096, 8096, 9000]):
-        for first, contb in [(f_, c_) for f_ in ((1, 2) if B < 8096 else (2, 3)) for c_ in (False, True)]:
+        for first, contb, shift in [(f_, c_, s_) for f_ in ((1, 2) if B < 8096 else (2, 3)) for c_ in (False, True) for s_ in (0, 1)]:
             lay = textgen.boundary_layout(rng, B, first_lines=first, notation=textgen.NOTATIONS[(B + first) % len(textgen.NOTATIONS)],
-                                          continuation=contb)
+                                          continuation=contb, shift=shift)
             for Bx in sorted({B, B + 1, max(64, B - 1), 2 * B, 65536}):
-                name = "b%d_%d%s.log" % (B, first, "c" if contb else "")
+                name = "b%d_%d%s%s.log" % (B, first, "c" if contb else "", "s" if shift else "")
                 case = Case({name: lay.data}, ["--color", "never", "--blocksz", str(Bx), name], lay.printed(),
                             note={"blocksz": Bx, "container": "plain", "file": name}, timeout=60)
                 cases.append((case, lay, Bx, "plain"))
+                if Bx in (B, 2 * B):
+                    # (a streamed form cannot read a block again once it has let go of it)
+                    case = Case({name + ".gz": gen.gz_bytes(lay.data)}, ["--color", "never", "--blocksz", str(Bx), name + ".gz"], lay.printed(),
+                                note={"blocksz": Bx, "container": "gz", "file": name}, timeout=60)
+                    cases.append((case, lay, Bx, "gz"))
     return cases
 
 
